@@ -74,6 +74,21 @@ def AgreeB (g : GEnv) (ctx : Scope) (st : St) (env : Spec.Eval.Env) (r : R) : Ou
   | .error => r.cls = .err
   | .unspec => True
 
+/-- the specification's agreement does not look at `s.node` -/
+theorem Agree.of_atNode {g : GEnv} {ctx : Scope} {st : St} {p : Nat} {r : R} {o : Spec.Eval.ROut}
+    (h : Agree g ctx (atNode st p) r o) : Agree g ctx st r o := by
+  cases o with
+  | unspec => trivial
+  | error => exact h
+  | val q => exact h
+
+theorem AgreeB.of_atNode {g : GEnv} {ctx : Scope} {st : St} {env : Spec.Eval.Env} {p : Nat} {r : R} {o : Out Bytes}
+    (h : AgreeB g ctx (atNode st p) env r o) : AgreeB g ctx st env r o := by
+  cases o with
+  | unspec => trivial
+  | error => exact h
+  | val q => exact h
+
 theorem absV_undefined (mv : Value) (h : absV mv = .undefined) : mv = .undefined := by
   cases mv <;> simp [absV] at h ⊢
 
@@ -202,10 +217,17 @@ theorem cmd_agree : (c : Cmd) → cfrag c = true → ∀ (ctx : Scope) (st : St)
     simp only [cfrag, Bool.and_eq_true, List.isEmpty_iff] at hf
     obtain ⟨hd, hfa⟩ := hf
     subst hd
-    obtain ⟨h1, h2⟩ := evalIn_sim hr arg hfa
-    rw [execCmd, Spec.Eval.renderCmd]
-    simp only [List.isEmpty_nil, Bool.not_true, Bool.false_eq_true, if_false]
+    rw [execCmd]
     unfold evalPrint
+    refine Agree.of_atNode (p := Expr.pos arg) ?_
+    have hr0 : Rel g ctx (atNode st (Expr.pos arg)) env := hr.of_heap rfl
+    clear hr
+    generalize atNode st (Expr.pos arg) = st at hr0 ⊢
+    have hr := hr0
+    obtain ⟨h1, h2⟩ := evalIn_sim hr arg hfa
+    rw [Spec.Eval.renderCmd]
+    simp only [List.isEmpty_nil, Bool.not_true, Bool.false_eq_true, if_false]
+    unfold evalPrintAt
     cases hv : Spec.Eval.eval env arg with
     | unspec => simp [Spec.Eval.Out.bind, Agree]
     | error => simp [Spec.Eval.Out.bind, Agree, h2 hv]
@@ -347,7 +369,7 @@ theorem body_agree : (b : Block) → bfrag b = true → ∀ (ctx : Scope) (st : 
     refine block_agree g (execBody g esc call (.mk _ cs)) _ (execBody_good g esc call hcall _) ?_ ctx st env hr hok
     intro ctx' st' env' hr' hown' hok'
     refine ⟨cmdsE esc reg hasBundle entry scall cs env', ?_, ?_⟩
-    · rw [execBody]; exact cmds_agree cs hf ctx' st' env' hr' hown' hok'
+    · rw [execBody]; exact Agree.of_atNode (cmds_agree cs hf ctx' _ env' (hr'.of_heap rfl) (hown'.atNode _) hok')
     · rw [Spec.Eval.renderBlock]; exact renderCmds_eq esc reg hasBundle entry scall cs env'
 theorem cmds_agree : (cs : CmdList) → csFrag cs = true → ∀ (ctx : Scope) (st : St) (env : Spec.Eval.Env),
     Rel g ctx st env → Own ctx st → ScopeOk ctx st →
@@ -356,9 +378,17 @@ theorem cmds_agree : (cs : CmdList) → csFrag cs = true → ∀ (ctx : Scope) (
     rw [execCmds, cmdsE]; exact ⟨rfl, by simp, hr⟩
   | .cons c rest, hf, ctx, st, env, hr, hown, hok => by
     simp only [csFrag, Bool.and_eq_true] at hf
+    rw [execCmds]
+    refine Agree.of_atNode (p := cmdPos c) ?_
+    have hr0 : Rel g ctx (atNode st (cmdPos c)) env := hr.of_heap rfl
+    have hown0 : Own ctx (atNode st (cmdPos c)) := hown.atNode _
+    have hok0 : ScopeOk ctx (atNode st (cmdPos c)) := hok
+    clear hr hown hok
+    generalize atNode st (cmdPos c) = st at hr0 hown0 hok0 ⊢
+    have hr := hr0; have hown := hown0; have hok := hok0
     have h1 := cmd_agree c hf.1 ctx st env hr hown hok
     have hg := execCmd_good g esc call hcall c ctx st hown
-    rw [execCmds, cmdsE]
+    rw [cmdsE]
     cases hv : Spec.Eval.renderCmd reg hasBundle esc entry scall c env with
     | unspec => simp [Spec.Eval.Out.bind, Agree]
     | error => rw [hv] at h1; simp only [Agree] at h1; simp [Spec.Eval.Out.bind, Agree, h1]
@@ -426,7 +456,7 @@ theorem exec_refines_lexical_partial (b : Block) (hf : bfrag b = true) (ctx : Sc
     | .unspec => True := by
   obtain ⟨p, cs⟩ := b
   simp only [bfrag] at hf
-  have h := cmds_agree g hob esc call hcall reg hasBundle entry scall cs hf ctx st env hr hown hok
+  have h := Agree.of_atNode (cmds_agree g hob esc call hcall reg hasBundle entry scall cs hf ctx (atNode st p) env (hr.of_heap rfl) (hown.atNode p) hok)
   rw [Spec.Eval.renderBlock, renderCmds_eq, execBody]
   cases hv : cmdsE esc reg hasBundle entry scall cs env with
   | unspec => simp [Spec.Eval.Out.bind]
